@@ -6,6 +6,7 @@ F32_TEXT = ('Rust f32 Display/FromStr (assumed, as named hypotheses of the theor
 
 PROPS = {
     'C13': {
+        'floors': (10248, 9895, 9895),      # minimum requests / oracle lines / strong-oracle lines a run must cover (about half of the quick tier)
         'gen_items': ['Rank', 'RankSucc', 'Suit', 'CardBits', 'Ranges', 'Pair'],
         'lean_modules': ['EspadaVerif.Props.C13', 'EspadaVerif.Props.Witness.C13', 'EspadaVerif.Props.C13More'],
         'namespaces': ['EspadaVerif.C13'],
@@ -15,19 +16,20 @@ PROPS = {
                      'EspadaVerif.C13.rank_next_prev', 'EspadaVerif.C13.rank_range_run', 'EspadaVerif.C13.suit_range_run', 'EspadaVerif.C13.Witness.card_bits_roundtrip_at_witness', 'EspadaVerif.C13.rank_range_total', 'EspadaVerif.C13.suit_range_total', 'EspadaVerif.C13.card_text_spec', 'EspadaVerif.C13.parse_card_spec'],
         'profiles': ['debug'],
         'rule': 'exhaustive: 13 ranks, 4 suits, 52 cards, all ordered pairs for comparisons, 64 single-bit words and 0, '
-                'all 16,512 one/two-byte ASCII strings, all endpoint pairs a<=b of rank/suit ranges; 200 seeded multi-bit words. '
+                'all 16,512 one/two-byte ASCII strings, all ordered endpoint pairs of rank/suit ranges (reversed ones included: both sides panic); 200 seeded multi-bit words. '
                 'distinct = distinct request lines (every request is a different input).',
         'trusted': ['hand-written Lean semantics of match/if-chains/slicing in Model/Card.lean (validated by the exhaustive correspondence)'],
-        'assumptions': ['reversed range endpoints are outside C13 (see DESIGN §5)'],
+        'assumptions': ['reversed range endpoints: the slice panic is proved (rank_range_total) and compared (see DESIGN §5)'],
     },
     'C01': {
+        'floors': (149683, 149683, 149683),      # minimum requests / oracle lines / strong-oracle lines a run must cover (about half of the quick tier)
         'gen_items': ['Rank', 'Suit', 'DpRef', 'Tables', 'MadeHand'],
         'lean_modules': ['EspadaVerif.Props.C01Compare', 'EspadaVerif.Props.Witness.C01', 'EspadaVerif.Props.C01Ops'],
         'namespaces': ['EspadaVerif.C01', 'EspadaVerif.Lemmas', 'EspadaVerif.Kernel'],
         'theorems': ['EspadaVerif.C01.C01_eval', 'EspadaVerif.C01.C01_order', 'EspadaVerif.C01.C01_compare',
                      'EspadaVerif.C01.C01_index_range', 'EspadaVerif.C01.C01_best_is_strongest',
                      'EspadaVerif.Kernel.rainbow_all', 'EspadaVerif.Kernel.flush_all',
-                     'EspadaVerif.Lemmas.cls_lt_iff', 'EspadaVerif.Lemmas.cls_eq_iff', 'EspadaVerif.Lemmas.cls_onto', 'EspadaVerif.C01.Witness.C01_eval_at_witness', 'EspadaVerif.C01.C01_ops', 'EspadaVerif.C01.seven_no_overflow'],
+                     'EspadaVerif.Lemmas.cls_lt_iff', 'EspadaVerif.Lemmas.cls_eq_iff', 'EspadaVerif.Lemmas.cls_onto', 'EspadaVerif.C01.Witness.C01_eval_at_witness', 'EspadaVerif.C01.C01_ops', 'EspadaVerif.C01.seven_no_overflow', 'EspadaVerif.C01.rainbow_no_overflow', 'EspadaVerif.C01.flush_no_overflow'],
         'profiles': ['debug'],
         'gen_release': True,
         'parallel': 14,
@@ -39,6 +41,7 @@ PROPS = {
         'assumptions': [],
     },
     'C02': {
+        'floors': (185, 185, 184),      # minimum requests / oracle lines / strong-oracle lines a run must cover (about half of the quick tier)
         'gen_items': ['Rank', 'Suit', 'Ranges', 'DpRef', 'Tables', 'MadeHand', 'Pair', 'Iter'],
         'lean_modules': ['EspadaVerif.Props.C02', 'EspadaVerif.Props.Witness.C02', 'EspadaVerif.Props.C02Spec'],
         'namespaces': ['EspadaVerif.C02'],
@@ -56,10 +59,11 @@ PROPS = {
         'assumptions': ['the probability product is stated over an abstract weight type with unit and product'],
     },
     'C04': {
+        'floors': (823, 823, 823),      # minimum requests / oracle lines / strong-oracle lines a run must cover (about half of the quick tier)
         'gen_items': ['Rank', 'Suit', 'Ranges', 'DpRef', 'Tables', 'MadeHand', 'Pair', 'Iter'],
-        'lean_modules': ['EspadaVerif.Props.C04', 'EspadaVerif.Props.Witness.C04', 'EspadaVerif.Props.C04Model'],
+        'lean_modules': ['EspadaVerif.Props.C04', 'EspadaVerif.Props.Witness.C04', 'EspadaVerif.Props.C04Model', 'EspadaVerif.Props.C08Bounds'],
         'namespaces': ['EspadaVerif.C04'],
-        'theorems': ['EspadaVerif.C04.C04_scoped', 'EspadaVerif.C04.C04_chain', 'EspadaVerif.C04.C04_exhausted', 'EspadaVerif.C04.C04_rescope', 'EspadaVerif.C04.Witness.C04_scoped_at_witness', 'EspadaVerif.C04.C04_scope_ok', 'EspadaVerif.C04.C04_rescope_last', 'EspadaVerif.C04.C04_scoped_sublist', 'EspadaVerif.C04.C04_chain_model', 'EspadaVerif.C04.C04_chain_exactly_once'],
+        'theorems': ['EspadaVerif.C04.C04_scoped', 'EspadaVerif.C04.C04_chain', 'EspadaVerif.C04.C04_exhausted', 'EspadaVerif.C04.C04_rescope', 'EspadaVerif.C04.Witness.C04_scoped_at_witness', 'EspadaVerif.C04.C04_scope_ok', 'EspadaVerif.C04.C04_rescope_last', 'EspadaVerif.C04.C04_scoped_sublist', 'EspadaVerif.C04.C04_chain_model', 'EspadaVerif.C04.C04_chain_exactly_once', 'EspadaVerif.C04.C04_default_scope', 'EspadaVerif.C04.C04_scope_many', 'EspadaVerif.C04.deals_append', 'EspadaVerif.C04.C04_to_river49'],
         'profiles': ['debug'],
         'gen_release': True,
         'parallel': 12,
@@ -70,10 +74,11 @@ PROPS = {
         'assumptions': [],
     },
     'C08': {
+        'floors': (88, 88, 0),      # minimum requests / oracle lines / strong-oracle lines a run must cover (about half of the quick tier)
         'gen_items': ['Rank', 'Suit', 'Ranges', 'DpRef', 'Tables', 'MadeHand', 'Pair', 'Iter'],
         'lean_modules': ['EspadaVerif.Props.C08', 'EspadaVerif.Props.Witness.C08', 'EspadaVerif.Props.C08Bounds', 'EspadaVerif.Props.C08Degenerate'],
         'namespaces': ['EspadaVerif.C08'],
-        'theorems': ['EspadaVerif.C08.C08_total', 'EspadaVerif.C08.C08_empty', 'EspadaVerif.C08.Witness.C08_total_at_witness', 'EspadaVerif.C08.C08_u8', 'EspadaVerif.C08.C08_advance_arith', 'EspadaVerif.C08.C08_steps', 'EspadaVerif.C08.C08_total_le', 'EspadaVerif.C08.C02_refines_le', 'EspadaVerif.C08.C08_degenerate_skipped'],
+        'theorems': ['EspadaVerif.C08.C08_total', 'EspadaVerif.C08.C08_empty', 'EspadaVerif.C08.Witness.C08_total_at_witness', 'EspadaVerif.C08.C08_u8', 'EspadaVerif.C08.C08_advance_arith', 'EspadaVerif.C08.C08_steps', 'EspadaVerif.C08.C08_total_le', 'EspadaVerif.C08.C02_refines_le', 'EspadaVerif.C08.C08_degenerate_skipped', 'EspadaVerif.C08.C08_no_recursion', 'EspadaVerif.C08.C08_yield_bound'],
         'profiles': ['debug', 'release'],
         'gen_release': True,
         'parallel': 12,
@@ -86,6 +91,7 @@ PROPS = {
         'assumptions': ['partial: the theorem bounds loop iterations and shows no panic arm is reachable; the 2 MiB claim is observed, not proved'],
     },
     'C03': {
+        'floors': (37700, 37200, 37200),      # minimum requests / oracle lines / strong-oracle lines a run must cover (about half of the quick tier)
         'gen_items': ['Rank', 'Suit', 'DpRef', 'Tables', 'MadeHand', 'Pair'],
         'lean_modules': ['EspadaVerif.Props.C03', 'EspadaVerif.Props.Witness.C03', 'EspadaVerif.Props.C03Rules'],
         'namespaces': ['EspadaVerif.C03'],
@@ -101,11 +107,12 @@ PROPS = {
         'assumptions': ['winner_len: stated for at most 255 players (u8 counter)'],
     },
     'C05': {
+        'floors': (6416, 6416, 6416),      # minimum requests / oracle lines / strong-oracle lines a run must cover (about half of the quick tier)
         'extra_stages': [stages.regex_difference_search, stages.f32_assumptions],
         'gen_items': ['Rank', 'RankSucc', 'Suit', 'CardBits', 'Ranges', 'Pair', 'RankPair', 'Token'],
         'lean_modules': ['EspadaVerif.Props.C05', 'EspadaVerif.Props.C05Oracle', 'EspadaVerif.Props.Witness.C05', 'EspadaVerif.Props.C05Weight'],
-        'namespaces': ['EspadaVerif.C05'],
-        'theorems': ['EspadaVerif.C05.C05_token', 'EspadaVerif.C05.C05_list', 'EspadaVerif.C05.C05_empty', 'EspadaVerif.C05.C05_counts', 'EspadaVerif.C05.C05_notation_unambiguous', 'EspadaVerif.C05.C05_oracle_reader_complete', 'EspadaVerif.C05.Witness.C05_token_at_witness', 'EspadaVerif.C05.C05_token_weight', 'EspadaVerif.C05.C05_list_weight'],
+        'namespaces': ['EspadaVerif.C05', 'EspadaVerif.Spec'],
+        'theorems': ['EspadaVerif.C05.C05_token', 'EspadaVerif.C05.C05_list', 'EspadaVerif.C05.C05_empty', 'EspadaVerif.C05.C05_counts', 'EspadaVerif.C05.C05_notation_unambiguous', 'EspadaVerif.C05.C05_oracle_reader_complete', 'EspadaVerif.C05.Witness.C05_token_at_witness', 'EspadaVerif.C05.C05_token_weight', 'EspadaVerif.C05.C05_list_weight', 'EspadaVerif.Spec.readToken_complete'],
         'profiles': ['debug'],
         'gen_release': True,
         'parallel': 14,
@@ -116,6 +123,7 @@ PROPS = {
         'assumptions': [],
     },
     'C06': {
+        'floors': (13990, 13990, 13990),      # minimum requests / oracle lines / strong-oracle lines a run must cover (about half of the quick tier)
         'extra_stages': [stages.regex_difference_search, stages.f32_assumptions],
         'gen_items': ['Rank', 'RankSucc', 'Suit', 'CardBits', 'Ranges', 'Pair', 'RankPair', 'Token'],
         'lean_modules': ['EspadaVerif.Props.C06', 'EspadaVerif.Props.Witness.C06', 'EspadaVerif.Props.C06Contents', 'EspadaVerif.Props.C06FromIter'],
@@ -128,14 +136,15 @@ PROPS = {
         'trusted': ['hand-written Lean model of the token / range parser and formatter (Model/Token.lean, Model/Range.lean) tied by the correspondence',
                     'regex 1.10 is modelled, not verified: Model/Regex.lean gives the pattern subset used (anchored, ASCII classes, groups, alternation, ? + * {n}) a Brzozowski-derivative semantics on bytes; C09_regex_semantics proves the recognisers equal that semantics of the literals read from the source on each run; that the regex crate implements this semantics is trusted and exercised by the correspondence',
                     F32_TEXT],
-        'assumptions': ['weights in Dom = bit patterns 0x00000000..=0x3F800000 (-0.0 and NaN excluded)'],
+        'assumptions': ['weights in Dom = bit patterns 0x00000000..=0x3F800000 (NaN outside; -0.0 cannot be stored in a range since the D11 repair)'],
     },
     'C09': {
+        'floors': (45464, 32536, 412),      # minimum requests / oracle lines / strong-oracle lines a run must cover (about half of the quick tier)
         'extra_stages': [stages.regex_difference_search],
         'gen_items': ['Rank', 'RankSucc', 'Suit', 'CardBits', 'Ranges', 'Pair', 'RankPair', 'Token'],
         'lean_modules': ['EspadaVerif.Props.C09', 'EspadaVerif.Props.Witness.C09', 'EspadaVerif.Props.C08Degenerate'],
         'namespaces': ['EspadaVerif.C09'],
-        'theorems': ['EspadaVerif.C09.C09_parse_total', 'EspadaVerif.C09.C09_use_total', 'EspadaVerif.C09.C09_range_total', 'EspadaVerif.C09.C09_regex_semantics', 'EspadaVerif.C09.Witness.C09_parse_total_at_witness', 'EspadaVerif.C09.C09_pair_total'],
+        'theorems': ['EspadaVerif.C09.C09_parse_total', 'EspadaVerif.C09.C09_use_total', 'EspadaVerif.C09.C09_range_total', 'EspadaVerif.C09.C09_regex_semantics', 'EspadaVerif.C09.Witness.C09_parse_total_at_witness', 'EspadaVerif.C09.C09_pair_total', 'EspadaVerif.C09.C09_range_views_total'],
         'profiles': ['debug'],
         'gen_release': True,
         'parallel': 14,
@@ -146,11 +155,12 @@ PROPS = {
         'assumptions': [],
     },
     'C10': {
+        'floors': (16574, 16574, 8152),      # minimum requests / oracle lines / strong-oracle lines a run must cover (about half of the quick tier)
         'extra_stages': [stages.regex_difference_search, stages.f32_assumptions],
         'gen_items': ['Rank', 'RankSucc', 'Suit', 'CardBits', 'Ranges', 'Pair', 'RankPair', 'Token'],
         'lean_modules': ['EspadaVerif.Props.C10', 'EspadaVerif.Props.Witness.C10', 'EspadaVerif.Props.C10Showdown'],
         'namespaces': ['EspadaVerif.C10'],
-        'theorems': ['EspadaVerif.C10.C10_combo', 'EspadaVerif.C10.C10_weight', 'EspadaVerif.C10.C10_prob', 'EspadaVerif.C10.C10_cards', 'EspadaVerif.C10.Witness.C10_weight_at_witness', 'EspadaVerif.C10.C10_showdown'],
+        'theorems': ['EspadaVerif.C10.C10_combo', 'EspadaVerif.C10.C10_weight', 'EspadaVerif.C10.C10_prob', 'EspadaVerif.C10.C10_cards', 'EspadaVerif.C10.Witness.C10_weight_at_witness', 'EspadaVerif.C10.C10_showdown', 'EspadaVerif.C10.C10_grammar', 'EspadaVerif.C10.C10_weight_token'],
         'profiles': ['debug'],
         'gen_release': True,
         'parallel': 14,
@@ -161,11 +171,12 @@ PROPS = {
         'assumptions': ['binary32 rounding is monotone and fixes 0 and 1 (IEEE-754); f32::from_str maps decimals in [0,1] into [0,1]'],
     },
     'C12': {
+        'floors': (14647, 14485, 14485),      # minimum requests / oracle lines / strong-oracle lines a run must cover (about half of the quick tier)
         'extra_stages': [stages.regex_difference_search],
         'gen_items': ['Rank', 'RankSucc', 'Suit', 'CardBits', 'Ranges', 'Pair', 'RankPair', 'Token'],
         'lean_modules': ['EspadaVerif.Props.C12', 'EspadaVerif.Props.Witness.C12', 'EspadaVerif.Props.C12General', 'EspadaVerif.Lemmas.RangeViewsSpec'],
-        'namespaces': ['EspadaVerif.C12'],
-        'theorems': ['EspadaVerif.C12.C12_report', 'EspadaVerif.C12.C12_orphans', 'EspadaVerif.C12.C12_cover', 'EspadaVerif.C12.C12_disjoint', 'EspadaVerif.C12.Witness.C12_cover_at_witness', 'EspadaVerif.C12.C12_report_contents', 'EspadaVerif.C12.C12_cover_contents', 'EspadaVerif.C12.C12_orphans_contents'],
+        'namespaces': ['EspadaVerif.C12', 'EspadaVerif.Spec'],
+        'theorems': ['EspadaVerif.C12.C12_report', 'EspadaVerif.C12.C12_orphans', 'EspadaVerif.C12.C12_cover', 'EspadaVerif.C12.C12_disjoint', 'EspadaVerif.C12.Witness.C12_cover_at_witness', 'EspadaVerif.C12.C12_report_contents', 'EspadaVerif.C12.C12_cover_contents', 'EspadaVerif.C12.C12_orphans_contents', 'EspadaVerif.Spec.rankPairs_agree', 'EspadaVerif.Spec.orphans_agree'],
         'profiles': ['debug'],
         'gen_release': True,
         'parallel': 14,
@@ -176,6 +187,7 @@ PROPS = {
         'assumptions': [],
     },
     'C17': {
+        'floors': (381, 381, 381),      # minimum requests / oracle lines / strong-oracle lines a run must cover (about half of the quick tier)
         'extra_stages': [stages.regex_difference_search],
         'gen_items': ['Rank', 'RankSucc', 'Suit', 'CardBits', 'Ranges', 'Pair', 'RankPair', 'Token'],
         'lean_modules': ['EspadaVerif.Props.C17', 'EspadaVerif.Props.Witness.C17', 'EspadaVerif.Props.C17Text'],
@@ -191,6 +203,7 @@ PROPS = {
         'assumptions': [],
     },
     'C15': {
+        'floors': (40, 40, 40),      # minimum requests / oracle lines / strong-oracle lines a run must cover (about half of the quick tier)
         'gen_items': ['Rank', 'Suit', 'Ranges', 'DpRef', 'Tables', 'MadeHand', 'Pair', 'Iter'],
         'uses_audit': True,
         'lean_modules': ['EspadaVerif.Props.C15', 'EspadaVerif.Props.Witness.C15', 'EspadaVerif.Props.C15Perm'],
@@ -208,10 +221,11 @@ PROPS = {
         'assumptions': ['partial: "all OS schedules" is discharged by the absence of shared state (audit + type system + frame theorem), not by enumeration of schedules'],
     },
     'C16': {
+        'floors': (4316, 4316, 4316),      # minimum requests / oracle lines / strong-oracle lines a run must cover (about half of the quick tier)
         'gen_items': [],
         'lean_modules': ['EspadaVerif.Props.C16', 'EspadaVerif.Props.Witness.C16', 'EspadaVerif.Props.C16Counts'],
         'namespaces': ['EspadaVerif.C16'],
-        'theorems': ['EspadaVerif.C16.C16_tiles', 'EspadaVerif.C16.C16_sum', 'EspadaVerif.C16.Witness.C16_tiles_at_witness', 'EspadaVerif.C16.C16_counts', 'EspadaVerif.C16.C16_tally', 'EspadaVerif.C16.C16_model_counts'],
+        'theorems': ['EspadaVerif.C16.C16_tiles', 'EspadaVerif.C16.C16_sum', 'EspadaVerif.C16.Witness.C16_tiles_at_witness', 'EspadaVerif.C16.C16_counts', 'EspadaVerif.C16.C16_tally', 'EspadaVerif.C16.C16_model_counts', 'EspadaVerif.C16.C16_zero'],
         'profiles': ['debug', 'release'],
         'gen_release': True,
         'parallel': 8,
@@ -223,10 +237,11 @@ PROPS = {
         'assumptions': [],
     },
     'C11': {
+        'floors': (18, 18, 18),      # minimum requests / oracle lines / strong-oracle lines a run must cover (about half of the quick tier)
         'gen_items': ['Rank', 'Suit', 'Ranges', 'DpRef', 'Tables', 'MadeHand', 'Pair', 'Iter'],
         'lean_modules': ['EspadaVerif.Props.C11', 'EspadaVerif.Props.Witness.C11', 'EspadaVerif.Props.C11Model'],
         'namespaces': ['EspadaVerif.C11'],
-        'theorems': ['EspadaVerif.C11.C11_suits', 'EspadaVerif.C11.C11_players', 'EspadaVerif.C11.C11_pot', 'EspadaVerif.C11.C11_model_flags', 'EspadaVerif.C11.C11_best_suit', 'EspadaVerif.C11.Witness.C11_suits_at_witness', 'EspadaVerif.C11.C11_suits_model', 'EspadaVerif.C11.C11_players_perm', 'EspadaVerif.C11.C11_drain_tally', 'EspadaVerif.C11.C11_suits_end_to_end', 'EspadaVerif.C11.C11_pot_sd'],
+        'theorems': ['EspadaVerif.C11.C11_suits', 'EspadaVerif.C11.C11_players', 'EspadaVerif.C11.C11_pot', 'EspadaVerif.C11.C11_model_flags', 'EspadaVerif.C11.C11_best_suit', 'EspadaVerif.C11.Witness.C11_suits_at_witness', 'EspadaVerif.C11.C11_suits_model', 'EspadaVerif.C11.C11_players_perm', 'EspadaVerif.C11.C11_drain_tally', 'EspadaVerif.C11.C11_suits_end_to_end', 'EspadaVerif.C11.C11_pot_sd', 'EspadaVerif.C11.C11_players_end_to_end', 'EspadaVerif.C11.perm_swaps', 'EspadaVerif.C11.tally_perm_entries', 'EspadaVerif.C11.tally_swap_cards'],
         'profiles': ['release'],
         'gen_release': True,
         'parallel': 12,
@@ -236,6 +251,7 @@ PROPS = {
         'assumptions': [],
     },
     'C07': {
+        'floors': (70393, 70393, 70393),      # minimum requests / oracle lines / strong-oracle lines a run must cover (about half of the quick tier)
         'parallel': 14,
         'gen_items': ['Rank', 'Suit', 'DpRef', 'Tables', 'MadeHand', 'HandType'],
         'lean_modules': ['EspadaVerif.Props.C07', 'EspadaVerif.Props.Witness.C07'],
@@ -250,6 +266,7 @@ PROPS = {
         'assumptions': [],
     },
     'C14': {
+        'floors': (4060, 3978, 3978),      # minimum requests / oracle lines / strong-oracle lines a run must cover (about half of the quick tier)
         'gen_items': ['Rank', 'Suit', 'CardBits', 'Pair'],
         'lean_modules': ['EspadaVerif.Props.C14', 'EspadaVerif.Props.Witness.C14', 'EspadaVerif.Props.C14More'],
         'namespaces': ['EspadaVerif.C14'],
